@@ -22,8 +22,11 @@ RULE = ("Hypothesis-generated abstract *graphs*: nodes of kind list, dict, set, 
         "container, or a defect; distinct = hash of text.")
 ASSUMPTIONS = [
     "identity of immutable scalars and of tuples is not claimed by the property and not compared",
-    "a self-reference that runs through a python/tuple may either be built or be rejected with ConstructorError (the property "
-    "only fixes the outcome for a container used as its own key)",
+    "which self-references can be built is decided by a reference model of the documented two-phase construction (simulate()): "
+    "containers and instances are resolvable by aliases while they are being filled; tuples and everything built in deep mode "
+    "(the state of a class with __setstate__) are not. Where the model says a cycle cannot be built, ConstructorError is required; "
+    "elsewhere the identity bijection is required. Cycles through lists/dicts only that the model rejects are the listed known "
+    "finding (deep construction), reproduced by its pinned input",
     "mapping keys are unique strings by construction, so positions can be matched without relying on key order",
 ]
 
@@ -343,6 +346,73 @@ def match_nodes(node, rid, expect, a2p, p2a, path="$"):
     return None
 
 
+class Rejected(Exception):
+    pass
+
+
+def simulate(rid, expect):
+    """Reference model of the documented two-phase construction: containers and instances are created first and filled
+    later (their node is resolvable by aliases in between); tuples, and everything constructed in *deep* mode (the state of a
+    class with __setstate__), are finished before they become resolvable.  An alias to a node that is being constructed but
+    is not yet resolvable cannot be built ('found unconstructable recursive node').  Returns the list of (alias target id,
+    through) rejections - empty when the document must load."""
+    done, busy = set(), set()
+    deferred = []
+    state = {"deep": False}
+    gen_kinds = ("q", "m", "set", "o", "obj", "objs")
+
+    def children(aid, deep_children):
+        e = expect[aid]
+        k = e[0]
+        if k in ("q", "t", "set"):
+            for c in e[1]:
+                construct(c, deep_children)
+        else:
+            for kid, vid in e[1]:
+                construct(kid, deep_children)
+                construct(vid, deep_children)
+
+    def phase2(aid):
+        children(aid, expect[aid][0] == "objs")
+
+    def construct(aid, deep=False):
+        if aid in done:
+            return
+        old = state["deep"]
+        if deep:
+            state["deep"] = True
+        try:
+            if aid in busy:
+                raise Rejected(aid)
+            busy.add(aid)
+            k = expect[aid][0]
+            if k == "s":
+                pass
+            elif k == "t":
+                children(aid, False)
+            elif k in gen_kinds:
+                if state["deep"]:
+                    phase2(aid)
+                else:
+                    deferred.append(aid)
+            done.add(aid)
+            busy.discard(aid)
+        finally:
+            if deep:
+                state["deep"] = old
+
+    try:
+        construct(rid)
+        while deferred:
+            batch = list(deferred)
+            del deferred[:]
+            for aid in batch:
+                phase2(aid)
+    except Rejected as r:
+        return r.args[0]
+    return None
+
+
 def loader_legs(level):
     import yaml
     legs = []
@@ -379,6 +449,16 @@ def eval_case(case):
     failures = []
     evals = 0
     budget = 20000 + 4000 * len(text)
+    # what the documented construction order can build: index of the first document that must be rejected, if any
+    rejected_doc = None
+    for i, (rid, expect) in enumerate(roots):
+        target = simulate(rid, expect)
+        if target is not None:
+            rejected_doc = i
+            kind = expect[target][0]
+            cl.add("model-rejects:cycle-closes-on-%s" % ("tuple" if kind == "t" else "node-built-in-deep-mode"))
+            break
+    through = rejected_doc is not None
     # node graphs
     if defect is None:
         for cname, L in [("py", yaml.Loader)] + ([("c", yaml.CLoader)] if have_c() else []):
@@ -414,19 +494,19 @@ def eval_case(case):
             want = yaml.constructor.ConstructorError if defect == "container-as-own-key" else yaml.composer.ComposerError
             if exc is None:
                 failures.append(Failure("defect-accepted:%s:%s" % (defect, lname), "loaded %.100r\ntext=%r" % (got, text[:300])))
-            elif (through or "cycle-in-document-with-setstate-class" in cl) and isinstance(exc, yaml.constructor.ConstructorError):
-                cl.add("recursion-through-tuple:rejected")     # an earlier document was rejected first
+            elif through and isinstance(exc, yaml.constructor.ConstructorError) and "unconstructable recursive" in str(exc):
+                pass        # an earlier document is rejected first, as the model says
             elif not isinstance(exc, want):
                 failures.append(Failure("defect-wrong-error:%s:%s:%s" % (defect, lname, type(exc).__name__), "%s\ntext=%r" % (exc_msg(exc), text[:300])))
             continue
+        if through:
+            # the model says document #rejected_doc cannot be built: exactly ConstructorError is expected
+            if exc is None:
+                failures.append(Failure("unbuildable-cycle-accepted:%s" % lname, "loaded %.120r\ntext=%r" % (got, text[:300])))
+            elif not (isinstance(exc, yaml.constructor.ConstructorError) and "unconstructable recursive" in str(exc)):
+                failures.append(Failure("unbuildable-cycle-wrong-error:%s:%s" % (lname, exc_key(exc)), "%s\ntext=%r" % (exc_msg(exc), text[:300])))
+            continue
         if exc is not None:
-            if through and isinstance(exc, yaml.constructor.ConstructorError):
-                cl.add("recursion-through-tuple:rejected")
-                continue
-            if ("cycle-in-document-with-setstate-class" in cl and isinstance(exc, yaml.constructor.ConstructorError)
-                    and "unconstructable recursive" in str(exc)):
-                failures.append(Failure("cycle-rejected-in-document-with-setstate-class:%s" % lname, "%s\ntext=%r" % (exc_msg(exc), text[:300])))
-                continue
             failures.append(Failure("well-formed-rejected:%s:%s" % (lname, exc_key(exc)), "%s\ntext=%r" % (exc_msg(exc), text[:300])))
             continue
         if len(got) != len(roots):
@@ -483,8 +563,6 @@ REQUIRED_CLASSES = ["alias-to-container", "alias-to-finished-container", "alias-
 
 
 def known_class(arm, case, key):
-    if key.startswith("cycle-rejected-in-document-with-setstate-class:"):
-        return "deep-construction-rejects-cycle-first-reached-from-setstate-state"
     return None
 
 
